@@ -533,6 +533,20 @@ def cost_options_for(ftype, fid):
     return opts
 
 
+def options_not_implied_by_identifier(fid, options):
+    """declared options whose value differs from what the written identifier stands for: the identifier is the name of the evaluated
+    formula, read back with the keyword arguments of kafe2's name table = the documented defaults, except that "..._fast" (covariance
+    formulas only) carries fast_math=True and "chi2_no_errors" carries add_determinant_cost=False"""
+    implied = {"add_determinant_cost": fid != "chi2_noerr", "add_constraint_cost": True, "fallback_on_singular": True, "axes_to_use": "xy", "fast_math": False}
+    out = []
+    for o, v in options.items():
+        if o == "fast_math" and fid in ("chi2_cov", "ga_cov"):
+            continue  # stored via the identifier: a lost fast_math is never explained by this mechanism
+        if o in implied and v != implied[o]:
+            out.append(o)
+    return out
+
+
 def make_cost_object(ftype, co):
     fam, base = COST_BASE[co["fid"]]
     kw = dict(base)
@@ -1727,8 +1741,7 @@ def _classify(h, obs, wit):
     #    come back as the defaults.  Holds only if the attribute that differs belongs to an option the case set to its non-default value.
     if kind == "fit" and obs == "cost_function" and f.get("cost_options") and exp != got:
         attr = path.split("[")[0].split("{")[0]
-        # fast_math of the covariance formulas IS stored (identifier "..._fast"): never explained by this mechanism
-        lost = [o for o in f["cost_options"] if not (o == "fast_math" and f.get("fid") in ("chi2_cov", "ga_cov"))]
+        lost = options_not_implied_by_identifier(case["cost_object"]["fid"], f["cost_options"])
         if any(attr in COST_OPTION_PATHS[o] for o in lost):
             return "C09/cost-function-options-not-stored"
     # -- dynamic_error_algorithm is not part of the file format
